@@ -219,4 +219,147 @@ theorem wf_rmw {g1 g2 : List Nat} {op : BOp} {b : Blk} {r : BRes} (hw : WF b) (h
         injection h with h; subst h
         exact wf_gc (wf_applyBOp (wf_gc hw h1) h2) h3
 
+
+def AllWF (s : St) : Prop := ∀ b r v, s.blk b = some (r, v) → WF v
+
+theorem allWF_upd {s : St} {b : Nat} {x : Option (Nat × Blk)} (hw : AllWF s)
+    (hx : ∀ r v, x = some (r, v) → WF v) : ∀ b' r v, upd s.blk b x b' = some (r, v) → WF v := by
+  intro b' r v h
+  unfold upd at h
+  split at h
+  · exact hx r v h
+  · exact hw b' r v h
+
+theorem allWF_applyWrite {s s' : St} {c : Call} (hw : AllWF s) (h : applyWrite s c = some s') : AllWF s' := by
+  unfold applyWrite at h
+  split at h
+  · -- create
+    injection h with h; subst h
+    exact allWF_upd hw (fun r v hx => by injection hx with hx; injection hx with _ hx; subst hx; exact wf_newBlk _ _)
+  · -- rmw
+    split at h
+    · cases h
+    · rename_i rv v hb
+      split at h
+      · cases h
+      · rename_i res hr
+        split at h
+        · cases h
+        · injection h with h; subst h
+          exact allWF_upd hw (fun r v' hx => by injection hx with hx; injection hx with _ hx; subst hx; exact wf_rmw (hw _ _ _ hb) hr)
+  · -- delete
+    split at h
+    · cases h
+    · split at h
+      · split at h
+        · split at h
+          · injection h with h; subst h; exact allWF_upd hw (fun r v hx => by cases hx)
+          · cases h
+        · cases h
+      · split at h
+        · cases h
+        · split at h
+          · injection h with h; subst h; exact allWF_upd hw (fun r v hx => by cases hx)
+          · cases h
+  all_goals first
+    | (cases h; done)
+    | (injection h with h; subst h; exact hw)
+    | (split at h <;> first
+        | (cases h; done)
+        | (injection h with h; subst h; exact hw)
+        | (split at h <;> first
+            | (cases h; done)
+            | (injection h with h; subst h; exact hw))
+        | (dsimp only at h; split at h <;> first
+            | (cases h; done)
+            | (injection h with h; subst h; exact hw)))
+
+theorem allWF_init (r nb : Nat) : AllWF (St.init r nb) := by
+  intro b r' v h; cases h
+
+theorem allWF_step {s s' : St} {e : Ev} (hw : AllWF s) (h : step s e = some s') : AllWF s' := by
+  cases e with
+  | tick => simp only [step] at h; injection h with h; subst h; exact hw
+  | «begin» t => simp only [step] at h; injection h with h; subst h; exact hw
+  | endOp t a =>
+    simp only [step] at h
+    split at h
+    · injection h with h; subst h; exact hw
+    · cases h
+  | call c =>
+    simp only [step] at h
+    split at h
+    · split at h
+      · split at h
+        · exact allWF_applyWrite hw h
+        · cases h
+      · injection h with h; subst h; exact hw
+    · injection h with h; subst h; exact hw
+
+theorem allWF_run {s s' : St} {evs : List Ev} (hw : AllWF s) (h : run s evs = some s') : AllWF s' := by
+  induction evs generalizing s with
+  | nil => simp only [run] at h; injection h with h; subst h; exact hw
+  | cons e es ih =>
+    simp only [run] at h
+    split at h
+    · rename_i s1 h1; exact ih (allWF_step hw h1) h
+    · cases h
+
+/-- An allocating read-modify-write never takes an ordinal that is live in the value it read. -/
+theorem rmw_got_unowned {g1 g2 : List Nat} {op : BOp} {v : Blk} {res : BRes} (hw : WF v)
+    (h : rmw g1 op g2 v = some res) {o : Nat} (ho : o ∈ res.got) :
+    v.slots[o]? = some Slot.free ∨ v.slots[o]? = some Slot.cool := by
+  unfold rmw at h
+  split at h
+  · cases h
+  · rename_i b1 h1
+    split at h
+    · cases h
+    · rename_i r1 h2
+      split at h
+      · cases h
+      · rename_i b2 h3
+        injection h with h; subst h
+        have hw1 := wf_gc hw h1
+        -- the ordinal is free in the garbage-collected block
+        have hfree : b1.slots[o]? = some Slot.free := by
+          cases op with
+          | assign h' k rv =>
+            simp only [applyBOp] at h2
+            split at h2
+            · injection h2 with h2; subst h2; exact autoAssign_picks_free (k := k) (h := h') (rv := rv) hw1 ho
+            · cases h2
+          | assignIP h' o' =>
+            simp only [applyBOp] at h2
+            split at h2
+            · rename_i v' hv; injection h2 with h2; subst h2
+              simp only [List.mem_singleton] at ho; subst ho
+              unfold assignIP at hv
+              split at hv
+              · rename_i hc; simpa using hc
+              · cases hv
+            · cases h2
+          | release h' ords =>
+            simp only [applyBOp] at h2
+            split at h2
+            · injection h2 with h2; subst h2; simp at ho
+            · cases h2
+          | relh h' =>
+            simp only [applyBOp] at h2
+            split at h2
+            · injection h2 with h2; subst h2; simp at ho
+            · cases h2
+          | clearAff => simp only [applyBOp] at h2; injection h2 with h2; subst h2; simp at ho
+          | bump => simp only [applyBOp] at h2; injection h2 with h2; subst h2; simp at ho
+        unfold gc at h1
+        split at h1
+        · rename_i hc
+          simp only [Bool.and_eq_true, List.all_eq_true, beq_iff_eq] at hc
+          injection h1 with h1; subst h1
+          simp only [getElem?_setSlots] at hfree
+          split at hfree
+          · rename_i hh; exact Or.inr (hc.2 o hh.1)
+          · exact Or.inl hfree
+        · cases h1
+
 end CalicoVerif.C19
